@@ -56,10 +56,21 @@ def run(ctx):
         raise core.MachineryError("transition dump too small: %d" % len(trs))
     for t in trs:
         pre_n2a = asdict(t["pre"]["n2a"])
-        nm = Namer(entries=list(pre_n2a.items()))
-        assert nm.addrByName == pre_n2a
         op, n, a = t["act"]["op"], t["act"]["n"], t["act"]["a"]
-        res = apply_op(hioing, nm, op, n, a)
+        if op == "load":       # the constructor's bulk load of (name, addr) pairs
+            pairs = [tuple(x) for x in t["act"]["pairs"]]
+            try:
+                nm = Namer(entries=[(pn or None, pa or None) if i % 2 else (pn, pa) for i, (pn, pa) in enumerate(pairs)])
+                res = "T"
+            except hioing.NamerError:
+                nm, res = Namer(), "E"
+            except Exception as ex:
+                nm, res = Namer(), "X:" + type(ex).__name__
+            n, a = "", str(pairs)
+        else:
+            nm = Namer(entries=list(pre_n2a.items()))
+            assert nm.addrByName == pre_n2a
+            res = apply_op(hioing, nm, op, n, a)
         exp_n2a, exp_a2n = asdict(t["post"]["n2a"]), asdict(t["post"]["a2n"])
         case = {"pre": pre_n2a, "op": op, "n": n, "a": a, "expected": {"res": t["res"], "n2a": exp_n2a, "a2n": exp_a2n},
                 "got": {"res": res, "n2a": nm.addrByName, "a2n": nm.nameByAddr}}
